@@ -94,6 +94,7 @@ package avro
 // ---------------------------------------------------------------- int.go
 
 //@ func (IntCodec[T]).Read for T in int16,int32,int64
+//@   implements Codec.Read
 //@   let i0 := r.i, n := len(r.buf)
 //@   requires wfRB(r) && p != nil && rawalloc(p, sizeof(T))
 //@   ensures [C17,C06,C04] i0 <= r.i && r.i <= n
@@ -103,6 +104,7 @@ package avro
 //@   modifies r.i, M[p, sizeof(T)]
 
 //@ func (IntCodec[T]).Skip for T in int16,int32,int64
+//@   implements Codec.Skip
 //@   let i0 := r.i, n := len(r.buf)
 //@   requires wfRB(r)
 //@   ensures [C04,C06] i0 <= r.i && r.i <= n
@@ -111,18 +113,21 @@ package avro
 //@   modifies r.i
 
 //@ func (IntCodec[T]).Write for T in int16,int32,int64
+//@   implements Codec.Write
 //@   let b0 := w.buf, v := memint(p, sizeof(T))
 //@   requires w != nil && p != nil
 //@   ensures [C17,C13,C02] len(w.buf) == len(b0) + uvlen(zz(v))
 //@   ensures [C17,C13,C02] forall k int :: 0 <= k && k < len(b0) ==> w.buf[k] == old(b0[k])
 //@   ensures [C17,C13,C02] forall j int :: 0 <= j && j < uvlen(zz(v)) ==> w.buf[len(b0)+j] == uvbyte(zz(v), j)
 //@   ensures [C13,C02] tlen() == 1 && tkind(0) == evV && ta(0) == uint64(v)
+//@   ensures base(w.buf) == old(base(w.buf)) || newobj(w.buf)
 //@   modifies w.buf, BH[w.buf]
 //@   emits V(v)
 
 // ---------------------------------------------------------------- fixed.go
 
 //@ func (fixedCodec).Read
+//@   implements Codec.Read
 //@   let i0 := r.i, n := len(r.buf)
 //@   requires wfRB(r) && f.Size >= 0 && (f.Size > 0 ==> p != nil) && rawalloc(p, f.Size)
 //@   ensures [C17,C06,C04,C03] (f.Size <= n - i0) <==> err == nil
@@ -132,6 +137,7 @@ package avro
 //@   modifies r.i, M[p, f.Size]
 
 //@ func (fixedCodec).Skip
+//@   implements Codec.Skip
 //@   let i0 := r.i, n := len(r.buf)
 //@   requires wfRB(r) && f.Size >= 0
 //@   ensures [C04,C06] (f.Size <= n - i0) <==> err == nil
@@ -140,18 +146,21 @@ package avro
 //@   modifies r.i
 
 //@ func (fixedCodec).Write
+//@   implements Codec.Write
 //@   let b0 := w.buf
 //@   requires w != nil && rc.Size >= 0 && (rc.Size > 0 ==> p != nil)
 //@   ensures [C17,C13,C02] len(w.buf) == len(b0) + rc.Size
 //@   ensures [C17,C13,C02] forall k int :: 0 <= k && k < len(b0) ==> w.buf[k] == old(b0[k])
 //@   ensures [C17,C13,C02] forall j int :: 0 <= j && j < rc.Size ==> w.buf[len(b0)+j] == mem8(uintptr(p) + uintptr(j))
 //@   ensures [C13,C02] tlen() == 1 && tkind(0) == evW && ta(0) == uint64(rc.Size)
+//@   ensures base(w.buf) == old(base(w.buf)) || newobj(w.buf)
 //@   modifies w.buf, BH[w.buf]
 //@   emits W(rc.Size)
 
 // ---------------------------------------------------------------- float.go
 
 //@ func (floatCodec[T]).Read for T in float32,float64
+//@   implements Codec.Read
 //@   let i0 := r.i, n := len(r.buf)
 //@   requires wfRB(r) && p != nil && rawalloc(p, sizeof(T))
 //@   ensures [C17,C06,C04,C03] (sizeof(T) <= n - i0) <==> err == nil
@@ -160,6 +169,7 @@ package avro
 //@   modifies r.i, M[p, sizeof(T)]
 
 //@ func (floatCodec[T]).Skip for T in float32,float64
+//@   implements Codec.Skip
 //@   let i0 := r.i, n := len(r.buf)
 //@   requires wfRB(r)
 //@   ensures [C04,C06] (sizeof(T) <= n - i0) <==> err == nil
@@ -168,16 +178,19 @@ package avro
 //@   modifies r.i
 
 //@ func (floatCodec[T]).Write for T in float32,float64
+//@   implements Codec.Write
 //@   let b0 := w.buf
 //@   requires w != nil && p != nil
 //@   ensures [C17,C13,C02] len(w.buf) == len(b0) + sizeof(T)
 //@   ensures [C17,C13,C02] forall k int :: 0 <= k && k < len(b0) ==> w.buf[k] == old(b0[k])
 //@   ensures [C17,C13,C02] lebytes(w.buf, len(b0), sizeof(T)) == memuint(p, sizeof(T))
 //@   ensures [C13,C02] tlen() == 1 && tkind(0) == evW && ta(0) == sizeof(T)
+//@   ensures base(w.buf) == old(base(w.buf)) || newobj(w.buf)
 //@   modifies w.buf, BH[w.buf]
 //@   emits W(sizeof(T))
 
 //@ func (Float32DoubleCodec).Read
+//@   implements Codec.Read
 //@   let i0 := r.i, n := len(r.buf)
 //@   requires wfRB(r) && p != nil && rawalloc(p, 4)
 //@   ensures [C17,C06,C04,C03] (8 <= n - i0) <==> err == nil
@@ -188,17 +201,20 @@ package avro
 //@   modifies r.i, M[p, 4]
 
 //@ func (Float32DoubleCodec).Write
+//@   implements Codec.Write
 //@   let b0 := w.buf, x := uint32(memuint(p, 4))
 //@   requires w != nil && p != nil && rawalloc(p, 4)
 //@   ensures [C17,C13,C02] len(w.buf) == len(b0) + 8
 //@   ensures [C17,C13,C02] forall k int :: 0 <= k && k < len(b0) ==> w.buf[k] == old(b0[k])
 //@   ensures [C17,C13,C02] !isnan(x) ==> le64(w.buf, len(b0)) == to64(x)
 //@   ensures [C17,C13,C02] isnan(x) ==> isnan(le64(w.buf, len(b0)))
+//@   ensures base(w.buf) == old(base(w.buf)) || newobj(w.buf)
 //@   modifies w.buf, BH[w.buf]
 
 // ---------------------------------------------------------------- bool.go
 
 //@ func (BoolCodec).Read
+//@   implements Codec.Read
 //@   let i0 := r.i, n := len(r.buf)
 //@   requires wfRB(r) && p != nil && rawalloc(p, 1)
 //@   ensures [C17,C06,C04,C03] (1 <= n - i0) <==> err == nil
@@ -207,6 +223,7 @@ package avro
 //@   modifies r.i, M[p, 1]
 
 //@ func (BoolCodec).Skip
+//@   implements Codec.Skip
 //@   let i0 := r.i, n := len(r.buf)
 //@   requires wfRB(r)
 //@   ensures [C04,C06] (1 <= n - i0) <==> err == nil
@@ -215,11 +232,13 @@ package avro
 //@   modifies r.i
 
 //@ func (BoolCodec).Write
+//@   implements Codec.Write
 //@   let b0 := w.buf
 //@   requires w != nil && p != nil
 //@   ensures [C17,C13,C02] len(w.buf) == len(b0) + 1 && w.buf[len(b0)] == (mem8(p) != 0 ? 1 : 0)
 //@   ensures [C17,C13,C02] forall k int :: 0 <= k && k < len(b0) ==> w.buf[k] == old(b0[k])
 //@   ensures [C13,C02] tlen() == 1 && tkind(0) == evB
+//@   ensures base(w.buf) == old(base(w.buf)) || newobj(w.buf)
 //@   modifies w.buf, BH[w.buf]
 //@   emits B(mem8(p) != 0 ? 1 : 0)
 
@@ -236,7 +255,8 @@ package avro
 //@   requires wfRBS(d)
 //@   ensures [C06,C04,C03] (0 <= l && l <= n - i0) <==> err == nil
 //@   ensures [C06,C04,C03] err == nil ==> d.i == i0 + l && len(res) == l && forall k int :: 0 <= k && k < l ==> res[k] == old(d.buf[i0+k])
-//@   ensures [C10] err == nil ==> base(res) == base(d.rb.sData) && (base(d.rb.sData) == old(base(d.rb.sData)) || newobj(d.rb.sData))
+//@   ensures [C10] err == nil ==> base(res) == base(d.rb.sData)
+//@   ensures base(d.rb.sData) == old(base(d.rb.sData)) || newobj(d.rb.sData)
 //@   ensures [C06,C04] err != nil ==> d.i == i0 && len(res) == 0
 //@   modifies d.i, d.rb.sData, BH[d.rb.sData]
 
@@ -246,6 +266,7 @@ package avro
 //@ spec lenAt(b bytes, i0 int, e int) int64 = unzz(pv(b, i0, e - i0))
 
 //@ func (BytesCodec).Read
+//@   implements Codec.Read
 //@   let i0 := r.i, n := len(r.buf), e := vend(r.buf, r.i), l := vval(r.buf, r.i)
 //@   requires wfRB(r) && ptr != nil && rawalloc(ptr, 24)
 //@   ensures [C06,C04,C03] i0 <= r.i && r.i <= n
@@ -255,6 +276,7 @@ package avro
 //@   modifies r.i, M[ptr, 24], BH
 
 //@ func (BytesCodec).Skip
+//@   implements Codec.Skip
 //@   let i0 := r.i, n := len(r.buf), e := vend(r.buf, r.i), l := vval(r.buf, r.i)
 //@   requires wfRB(r)
 //@   ensures [C06,C04] i0 <= r.i && r.i <= n
@@ -262,6 +284,7 @@ package avro
 //@   modifies r.i
 
 //@ func (BytesCodec).Write
+//@   implements Codec.Write
 //@   let b0 := w.buf, s := membytes(p)
 //@   requires w != nil && p != nil && rawalloc(p, 24) && 0 <= len(s) && len(s) < 1<<40 && (len(s) == 0 || (allocated(s) && base(s) != base(w.buf)))
 //@   ensures [C13,C02,C17] len(w.buf) == len(b0) + uvlen(zz(int64(len(s)))) + len(s)
@@ -269,9 +292,11 @@ package avro
 //@   ensures [C13,C02,C17] forall j int :: 0 <= j && j < uvlen(zz(int64(len(s)))) ==> w.buf[len(b0)+j] == uvbyte(zz(int64(len(s))), j)
 //@   ensures [C13,C02,C17] forall j int :: 0 <= j && j < len(s) ==> w.buf[len(b0)+uvlen(zz(int64(len(s))))+j] == old(s[j])
 //@   ensures [C13,C02] tlen() == 2 && tkind(0) == evV && ta(0) == uint64(len(s)) && tkind(1) == evW && ta(1) == uint64(len(s))
+//@   ensures base(w.buf) == old(base(w.buf)) || newobj(w.buf)
 //@   modifies w.buf, BH[w.buf]
 
 //@ func (StringCodec).Read
+//@   implements Codec.Read
 //@   let i0 := r.i, n := len(r.buf), e := vend(r.buf, r.i), l := vval(r.buf, r.i)
 //@   requires wfRBS(r) && ptr != nil && rawalloc(ptr, 16)
 //@   ensures [C06,C04,C03] i0 <= r.i && r.i <= n
@@ -281,6 +306,7 @@ package avro
 //@   modifies r.i, M[ptr, 16], r.rb.sData, BH[r.rb.sData]
 
 //@ func (StringCodec).Skip
+//@   implements Codec.Skip
 //@   let i0 := r.i, n := len(r.buf), e := vend(r.buf, r.i), l := vval(r.buf, r.i)
 //@   requires wfRB(r)
 //@   ensures [C06,C04] i0 <= r.i && r.i <= n
@@ -288,6 +314,7 @@ package avro
 //@   modifies r.i
 
 //@ func (StringCodec).Write
+//@   implements Codec.Write
 //@   let b0 := w.buf, s := memstr(p)
 //@   requires w != nil && p != nil && rawalloc(p, 16) && 0 <= len(s) && len(s) < 1<<40 && (len(s) == 0 || (allocated(s) && base(s) != base(w.buf)))
 //@   ensures [C13,C02,C17] len(w.buf) == len(b0) + uvlen(zz(int64(len(s)))) + len(s)
@@ -295,4 +322,61 @@ package avro
 //@   ensures [C13,C02,C17] forall j int :: 0 <= j && j < uvlen(zz(int64(len(s)))) ==> w.buf[len(b0)+j] == uvbyte(zz(int64(len(s))), j)
 //@   ensures [C13,C02,C17] forall j int :: 0 <= j && j < len(s) ==> w.buf[len(b0)+uvlen(zz(int64(len(s))))+j] == old(s[j])
 //@   ensures [C13,C02] tlen() == 2 && tkind(0) == evV && ta(0) == uint64(len(s)) && tkind(1) == evW && ta(1) == uint64(len(s))
+//@   ensures base(w.buf) == old(base(w.buf)) || newobj(w.buf)
 //@   modifies w.buf, BH[w.buf]
+
+// ================================================================ the Codec interface contract
+//
+// Ghost attributes of a codec value (uninterpreted for an unknown dynamic type, defined per dynamic type below):
+//   dsz(c)        number of destination bytes Read may write at p
+//   cend(c,b,i)   extent: the buffer position after the value that starts at b[i]
+//   wfc(c)        the codec (tree) is well formed (established by the build* functions)
+//   omitv(c,p)    what Omit(p) returns
+
+//@ ghost dsz(c iface) int
+//@ ghost cend(c iface, b bytes, i int) int
+//@ ghost wfc(c iface) bool
+//   wfval(c,p)    p holds a well-formed Go value of the codec's type (non-nil where required, readable, slice lengths >= 0)
+//@ ghost wfval(c iface, p ptr) bool reads M
+
+//@ iface Codec.Read
+//@   let i0 := r.i, b0 := r.buf
+//@   requires wfRBS(r) && this != nil && wfc(this) && 0 <= dsz(this) && (dsz(this) > 0 ==> p != nil) && rawalloc(p, dsz(this))
+//@   ensures [C04,C05,C06,C03] wfRBS(r) && i0 <= r.i && r.buf == b0 && sameobj(b0)
+//@   ensures [C04] err == nil ==> r.i == cend(this, b0, i0)
+//@   modifies r.i, M[p, dsz(this)], r.rb.sData, r.rb.types, type resourceType, BH[r.rb.sData]
+//@   emits CR(this, p)
+
+//@ iface Codec.Skip
+//@   let i0 := r.i, b0 := r.buf
+//@   requires wfRB(r) && this != nil && wfc(this)
+//@   ensures [C04,C06] wfRB(r) && i0 <= r.i
+//@   ensures [C04] err == nil ==> r.i == cend(this, b0, i0)
+//@   modifies r.i
+//@   emits CS(this)
+
+//@ iface Codec.Omit
+//@   requires this != nil
+//@   pure
+
+//@ iface Codec.Write
+//@   let b0 := w.buf
+//@   requires w != nil && this != nil && wfc(this) && wfval(this, p)
+//@   ensures [C02,C13,C09] len(b0) <= len(w.buf) && forall k int :: 0 <= k && k < len(b0) ==> w.buf[k] == old(b0[k])
+//@   ensures [C02,C13,C09] base(w.buf) == old(base(w.buf)) || newobj(w.buf)
+//@   modifies w.buf, BH[w.buf]
+//@   emits CW(this, p)
+
+// ---------------------------------------------------------------- per-type attribute definitions (leaves)
+
+//@ spec rdable(p ptr, n int) bool = p != nil && rawalloc(p, n)
+//@ spec wfslice(s bytes) bool = 0 <= len(s) && len(s) < 1<<40 && (len(s) == 0 || allocated(s))
+//@ type IntCodec[T] for T in int16,int32,int64 : dsz = sizeof(T) ; wfc = true ; cend(b, i) = vend(b, i) ; wfval(p) = rdable(p, sizeof(T))
+//@ type floatCodec[T] for T in float32,float64 : dsz = sizeof(T) ; wfc = true ; cend(b, i) = i + sizeof(T) ; wfval(p) = rdable(p, sizeof(T))
+//@ type Float32DoubleCodec : dsz = 4 ; wfc = true ; cend(b, i) = i + 8 ; wfval(p) = rdable(p, 4)
+//@ type BoolCodec : dsz = 1 ; wfc = true ; cend(b, i) = i + 1 ; wfval(p) = rdable(p, 1)
+//@ type *fixedCodec : dsz = this.Size ; wfc = this != nil && 0 <= this.Size && this.Size < 1<<40 ; cend(b, i) = i + this.Size ; wfval(p) = this.Size == 0 || rdable(p, this.Size)
+//@ type fixedCodec : dsz = this.Size ; wfc = 0 <= this.Size && this.Size < 1<<40 ; cend(b, i) = i + this.Size ; wfval(p) = this.Size == 0 || rdable(p, this.Size)
+//@ type BytesCodec : dsz = 24 ; wfc = true ; cend(b, i) = vend(b, i) + int(vval(b, i)) ; wfval(p) = rdable(p, 24) && wfslice(membytes(p))
+//@ type StringCodec : dsz = 16 ; wfc = true ; cend(b, i) = vend(b, i) + int(vval(b, i)) ; wfval(p) = rdable(p, 16) && wfslice(memstr(p))
+//@ type nullCodec : dsz = 0 ; wfc = true ; cend(b, i) = i ; wfval(p) = true
